@@ -316,11 +316,22 @@ def handle (req : Json) : Except String Json := do
           | [(c, as, x)] => pure (SArg.single c as x)
           | _ => throw "an unbatched score call has one row")
       let sbatch := match req.getObjVal? "score_batch" with | .ok (Json.bool b) => b | _ => sp.layout != .single
-      let S := scriptedScore pol sbatch (← bool (← field req "score_tup"))
+      -- score kinds: absent (no attribute), failing (always raises `fail`), or the scripted scorer
+      let failOf (j : Json) : Except String ScoreFailure := do pure ⟨← bool (← field j "attr"), ← str (← field j "msg")⟩
+      let fail ← (match req.getObjVal? "score_fail" with | .ok j => if j.isNull then pure (⟨false, ""⟩ : ScoreFailure) else failOf j | .error _ => pure ⟨false, ""⟩)
+      let failing := match req.getObjVal? "score_fail" with | .ok j => !j.isNull | .error _ => false
+      let absent := match req.getObjVal? "score_absent" with | .ok (Json.bool b) => b | _ => false
+      let S0 := scriptedScore pol sbatch (← bool (← field req "score_tup"))
+      let S : Option Scorer := if absent then none else if failing then some (fun _ => .error .learner) else some S0
+      match req.getObjVal? "score_probe" with
+      | .ok pj =>
+        let probe ← (match pj.getObjVal? "returns" with | .ok _ => pure ScoreProbe.returns | .error _ => do pure (ScoreProbe.raises (← failOf pj)))
+        out := out ++ [("has_score", Json.bool (hasScore probe))]
+      | .error _ => pure ()
       let rec go (m : Option Nat) : List SArg → List Json
         | [] => []
         | a :: as =>
-          match score fx (some S) m a with
+          match scoreFull fx S fail m a with
           | .ok (v, m') => obj [("ok", valToJson v), ("method", ofNat m')] :: go (some m') as
           | .error e => obj [("err", Json.str (errName e))] :: go m as
       let want := sargs.map (fun a => match a with
